@@ -57,8 +57,12 @@ Section Run.
           (* the parser hands the inner pairs of output_declaration straight to pairs_to_expr,
              so the statement's AST is the identifier / assignment itself (no Expr::Output node) *)
           match e with
-          | EId x | EOutput (EId x) => match lookup fr' x with Some v => Some (x, v) | None => None end
+          (* both forms record the value the expression evaluated to (repo fix 91678e3: the
+             identifier form used to look the name up in the bindings only) *)
+          | EId x | EOutput (EId x) => match r with Ok v => Some (x, v) | _ => None end
           | EAssign x _ | EOutput (EAssign x _) => match r with Ok v => Some (x, v) | _ => None end
+          (* `output sum`: the identifier is a built-in name; it is recorded under its own text *)
+          | EBuiltin b | EOutput (EBuiltin b) => match r with Ok v => Some (builtin_name b, v) | _ => None end
           | _ => None
           end in
         match decl with
